@@ -21,7 +21,8 @@ var (
 	c09Depths = []int{0, 1, 2, 3, 5, 8, 12}
 	c09Nest   = []int{1, 2, 4, 8, 12, 70}
 	c09Locals = []int{0, 1, 3, 8}
-	c09Shapes = []string{"plain", "call-in-try", "early-return-in-loop", "break-in-loop", "throw-caught-per-iteration", "throw-with-pending-operands", "recursion-through-function-value", "recursion-through-closure-in-list"}
+	c09Shapes = []string{"plain", "call-in-try", "early-return-in-loop", "break-in-loop", "throw-caught-per-iteration", "throw-with-pending-operands", "recursion-through-function-value", "recursion-through-closure-in-list",
+		"throw-in-builtin-argument", "throw-in-method-argument", "throw-in-function-argument"}
 
 	c09CallLims  = []uint{1, 2, 3, 4, 6, 8, 12, 16, 100}
 	c09StackLims = []uint{1, 2, 4, 8, 16, 64, 500}
@@ -71,6 +72,21 @@ func c09Program(d, e, v int, shape string, n int) *hs.Program {
 	case "throw-caught-per-iteration":
 		funcs = append(funcs, hs.Fn("thrower", nil, hs.Blk(nil, hs.LetS("pad", hs.I(1)), hs.ES(hs.CallN("throw", hs.S("x"))))))
 		loopBody = []hs.Stmt{call, hs.ES(&hs.Try{Body: hs.Blk(nil, hs.ES(hs.CallN("thrower"))), Var: "e", Catch: hs.Blk(nil)})}
+	case "throw-in-builtin-argument", "throw-in-method-argument", "throw-in-function-argument":
+		// the exception is raised while the ARGUMENTS of a call are evaluated: the callee (a host
+		// builtin, a member of a list, a script function) is never entered
+		funcs = append(funcs, hs.Fn("thrower", hs.TInt, hs.Blk(hs.I(1), hs.LetS("pad", hs.I(1)), hs.ES(hs.CallN("throw", hs.S("x"))))),
+			hs.Fn("id", hs.TInt, hs.Blk(hs.V("q")), hs.P("q", hs.TInt)))
+		var inner hs.Stmt
+		switch shape {
+		case "throw-in-builtin-argument":
+			inner = hs.Println(hs.S("never"), hs.CallN("thrower"))
+		case "throw-in-method-argument":
+			inner = hs.ES(hs.MCall(hs.V("sink"), "push", hs.CallN("thrower")))
+		default:
+			inner = hs.ES(hs.CallN("id", hs.CallN("id", hs.CallN("thrower"))))
+		}
+		loopBody = []hs.Stmt{call, hs.LetS("sink", hs.List(hs.I(0))), hs.ES(&hs.Try{Body: hs.Blk(nil, inner), Var: "e", Catch: hs.Blk(nil)})}
 	case "throw-with-pending-operands":
 		// the exception is raised and caught in the same function while operands of an enclosing
 		// expression are pending on the operand stack
